@@ -362,6 +362,19 @@ func scriptJoint() []Event {
 	return seq(camp(1), prop(1), conf(1, mJointImpl), prop(1), prop(2), conf(1, mJointExpl), prop(1), conf(1, mLeave), prop(1), conf(1, mJointAuto2), prop(1), camp(2), prop(2))
 }
 
+// scriptReplaceTwo: two voters are replaced at once, so the joint configuration
+// (1 4 5)&&(1 2 3) has two outgoing-only and two incoming-only voters; leadership changes
+// hands while joint, the new leader leaves the joint configuration, then another election.
+func scriptReplaceTwo() []Event {
+	return seq(camp(1), prop(1), conf(1, 0), prop(1), isolate(1), camp(4), prop(4), heal(), prop(4), conf(4, 1), prop(4), camp(5), prop(5))
+}
+
+func replaceTwoSc(f feat, k int, budgets ...int) *Scenario {
+	s := ddScn("replace-two", 5, ids(3), f, scriptReplaceTwo(), k, budgets...)
+	s.ConfMenu = []ConfSpec{{Transition: pb.ConfChangeTransitionJointExplicit, Changes: "v4 v5 r2 r3"}, ccLeave}
+	return s
+}
+
 func scriptConfFailover() []Event {
 	return seq(camp(1), prop(1), cut(1, 3), conf(1, mJointExpl), isolate(1), camp(2), prop(2), conf(2, mLeave), heal(), prop(2), conf(2, mAddVoter4), prop(2))
 }
@@ -720,6 +733,9 @@ func poolConf(tier string) (p pool) {
 			confSc("conf+failover", f, scriptConfFailover(), k, defaultFaults...),
 		)
 	}
+	for _, f := range []feat{syncF, asyncF} {
+		p.dd = append(p.dd, replaceTwoSc(f, k, defaultFaults...))
+	}
 	{
 		cl := ddScn("conf-lag", 3, ids(3), asyncF, scriptConfLag(), k, defaultFaults...)
 		cl.ConfMenu = []ConfSpec{{Changes: "l1"}, {Changes: "l2"}}
@@ -997,6 +1013,7 @@ func Jobs(prop, tier string) []*Job {
 			ddScn("failover", 3, ids(3), syncF, scriptFailover(), k+1, fl...), ddScn("figure8", 3, ids(3), asyncF, scriptFigure8(), k+1, fl...),
 			ddScn("snapshot", 3, ids(3), syncF, scriptSnapshot(), k, fl...), ddScn("snapshot-restart", 3, ids(3), asyncF, scriptSnapshotRestart(), k, fl...),
 			confSc("learner", syncF, scriptLearner(), k, fl...), confSc("joint", asyncF, scriptJoint(), k, fl...), confSc("conf+failover", feat{stepdown: true}, scriptConfFailover(), k, fl...),
+			replaceTwoSc(syncF, k, fl...), replaceTwoSc(pvcqF, k, fl...),
 			ddScn("read", 3, ids(3), pvcqF, scriptRead(), k+1, fl...),
 			tickSc("prevote-rejoin", 3, pvcqF, scriptPrevoteRejoin(), k, int(BTick), 2, int(BDrop), 1),
 			tickSc("checkquorum-lease", 3, cqF, scriptCheckQuorumLease(), k, int(BTick), 2, int(BDrop), 1),
